@@ -26,7 +26,10 @@ META = {
                   "ring.Ring (caches on, updates through the Consul mock's watch path, synctest clock) and PartitionRingWatcher are validated "
                   "by TLC against the same actions: the update class is derived by the specification, cache hits/fills are replayed with the "
                   "real fresh answer as shard function, and every long-lived answer must equal the fresh one (concurrent readers: one of the "
-                  "two adjacent versions).",
+                  "two adjacent versions). Gated histories (hook ring.VerifYield between computing a shard and filling the cache) park a "
+                  "reader, deliver an update of every kind, release it and re-ask: bound to QueryPlain/QueryLb, Update, Fill, so that the "
+                  "cache fill is refused exactly when lastTopologyChange moved. Gossip histories feed the long-lived ring from a detached "
+                  "memberlist KV (local CAS, NotifyMsg, MergeRemoteState; values share token storage) and compare with a deep-copied fresh client.",
     "level_note": "Exhaustive only within the small universes; the shard walk in the exhaustive configurations is an abstract model (one token "
                   "per instance, fixed start positions), real shards enter through the recorded traces. Trusted: TLC, the projection of "
                   "answers (harness/c13: instance records interned into a table; everything else compared as canonical strings), pointer "
@@ -160,9 +163,9 @@ def run(ctx):
         ti, tp, recs = ctx.path("trace_i.ndjson"), ctx.path("trace_p.ndjson"), ctx.path("recs.ndjson")
         env = {"VERIF_TRACE_I": ti, "VERIF_TRACE_P": tp, "VERIF_RECS": recs}
         if quick:
-            env.update({"VERIF_SYSCFGS": 1, "VERIF_RANDOM": 3, "VERIF_CONC": 2, "VERIF_ROUNDS": 10, "VERIF_GATED": 2})
+            env.update({"VERIF_SYSCFGS": 1, "VERIF_RANDOM": 3, "VERIF_CONC": 2, "VERIF_ROUNDS": 10, "VERIF_GATED": 2, "VERIF_GOSSIP": 2})
         else:
-            env.update({"VERIF_SYSCFGS": 4, "VERIF_RANDOM": 40, "VERIF_CONC": 10, "VERIF_ROUNDS": 25, "VERIF_GATED": 12})
+            env.update({"VERIF_SYSCFGS": 4, "VERIF_RANDOM": 40, "VERIF_CONC": 10, "VERIF_ROUNDS": 25, "VERIF_GATED": 12, "VERIF_GOSSIP": 10})
         res = ctx.run_harness("c13", "^TestRecord$", env=env, timeout=int(os.environ.get("VERIF_C13_HARNESS_TIMEOUT", "900")))
     finally:
         for t in threads:
